@@ -6,6 +6,7 @@ import (
 	"context"
 	"fmt"
 	"net/netip"
+	"runtime"
 	"sync"
 	"testing"
 	"testing/synctest"
@@ -26,6 +27,8 @@ type MultiScenario struct {
 	PktIDBase uint32       `json:"pktid_base"`
 	Sack      SackCfg      `json:"sack"`
 	SackAddr  string       `json:"sack_addr,omitempty"`
+	WriteLagUs int64       `json:"write_lag_us,omitempty"`
+	OneP       bool        `json:"one_p,omitempty"`
 }
 
 type multiOutcome struct {
@@ -74,6 +77,7 @@ func RunMulti(t *testing.T, ms *MultiScenario) *multiOutcome {
 		synctest.Test(t, func(t *testing.T) {
 			w := NewWire(world)
 			w.MaxVirtual = 30 * time.Minute
+			w.WriteLag = us(ms.WriteLagUs)
 			out.Wire = w
 			packets.SetVerifHooks(w.Hooks())
 			defer packets.SetVerifHooks(nil)
@@ -536,4 +540,77 @@ func runNoReset(t *testing.T, sc *Scenario) *Outcome {
 		out.Run, out.Err = callEntry(context.Background(), sc, target)
 	})
 	return out
+}
+
+// TestC06Concurrent: probe emission under concurrency. Several runs share the process; every WriteTo call
+// takes a little virtual time, so another run's goroutine gets to execute between a run's packet
+// generation and the completion of its write. Half of the cases run with GOMAXPROCS(1), where goroutines
+// share per-P state (pools, caches). Oracle: the buffer handed to WriteTo is unchanged when the call
+// completes, and every sink's own stream of probes is well formed, in TTL order, on one flow.
+func TestC06Concurrent(t *testing.T) {
+	rec := NewRecorder("C06", "C06Concurrent", "rapid: 2..6 concurrent runs of any variant mix on one wire where every WriteTo takes 1..40 us of virtual time; half of the cases with GOMAXPROCS(1); oracle: the bytes handed to WriteTo are unchanged when the call completes, every sink's probes are well formed with consecutive TTLs, one flow and distinct identifiers; non-trivial = >= 2 runs overlapped in virtual time")
+	RunProp(t, rec, func(rt *rapid.T) *MultiScenario {
+		ms := genMulti(rt)
+		if len(ms.Runs) > 6 {
+			ms.Runs, ms.StartUs = ms.Runs[:6], ms.StartUs[:6]
+		}
+		for i := range ms.StartUs {
+			ms.StartUs[i] %= 3000
+		}
+		ms.WriteLagUs = oneOf(rt, "write_lag_us", int64(1), 5, 40)
+		ms.OneP = rapid.Bool().Draw(rt, "one_p")
+		return ms
+	}, func(t *testing.T, ms *MultiScenario, rec *Recorder) []Diff {
+		if ms.OneP {
+			defer runtime.GOMAXPROCS(runtime.GOMAXPROCS(1))
+		}
+		o := RunMulti(t, ms)
+		if o.Panic != "" || o.Deadlock != "" || o.Wire == nil {
+			rec.Case(scenarioKey(ms), false, nil, "other:crash")
+			return []Diff{{"C09", "crash", o.Panic + o.Deadlock}}
+		}
+		var ds []Diff
+		for _, m := range o.Wire.BufMutated {
+			ds = append(ds, Diff{"C06", "buffer-reused-during-write", m})
+		}
+		for h, probes := range sinkProbes(o.Wire) {
+			flow := ""
+			want := 0
+			ids := map[string]bool{}
+			for i, p := range probes {
+				if i == 0 {
+					flow, want = p.FlowKey(), int(p.TTL)
+				}
+				if p.FlowKey() != flow {
+					ds = append(ds, Diff{"C06", "flow-changed", fmt.Sprintf("sink %d: probe #%d belongs to flow %s, the run's flow is %s", h, i, p.FlowKey(), flow)})
+					break
+				}
+				if int(p.TTL) != want {
+					ds = append(ds, Diff{"C06", "ttl-order", fmt.Sprintf("sink %d: probe #%d has TTL %d, expected %d", h, i, p.TTL, want)})
+					break
+				}
+				want++
+				if ids[p.Ident()] && !(p.Kind == "tcp-syn" && p.IP.ID == 41821) {
+					ds = append(ds, Diff{"C06", "ident-shared", fmt.Sprintf("sink %d: identifier %s used twice", h, p.Ident())})
+				}
+				ids[p.Ident()] = true
+			}
+		}
+		for _, e := range o.Wire.Ledger {
+			if e.Kind == "sink" && e.Op == "WriteTo" && e.PErr != "" {
+				ds = append(ds, Diff{"C06", "malformed", fmt.Sprintf("sink %d emitted a malformed probe: %s", e.Handle, e.PErr)})
+				break
+			}
+		}
+		overlap := 0
+		for i := range ms.Runs {
+			for j := i + 1; j < len(ms.Runs); j++ {
+				if o.StartAt[i] < o.EndAt[j] && o.StartAt[j] < o.EndAt[i] {
+					overlap++
+				}
+			}
+		}
+		rec.Case(scenarioKey(ms), overlap >= 1, nil, fmt.Sprintf("one_p:%v", ms.OneP))
+		return ds
+	})
 }
